@@ -3,7 +3,10 @@
 use crate::jgen;
 use crate::rng::Rng;
 
-pub const METHODS: [&str; 13] = [
+pub const METHODS: [&str; 16] = [
+	"unser_sync",
+	"unser_async",
+	"unser_blocking",
 	"ext_info",
 	"ext_info_async",
 	"seq3",
